@@ -160,18 +160,38 @@ def jws_forge(ser: str, header: dict, payload: bytes, jwk: dict, valid: bool = T
     raise ValueError(ser)
 
 
+def F(tok, salt: int = 0):
+    """The Python form in which a compact token is handed to the library is not part of the token: the same octets are given
+    as str, bytes, bytearray or memoryview (chosen by the octets themselves, so that a run is reproducible)."""
+    import zlib
+    if isinstance(tok, str):
+        try:
+            b = tok.encode("ascii")
+        except UnicodeEncodeError:
+            return tok
+    elif isinstance(tok, bytes):
+        b = tok
+    else:
+        return tok
+    k = (zlib.crc32(b) + salt) % 5
+    if k == 0: return tok
+    if k == 1: return b if isinstance(tok, str) else (b.decode("ascii") if all(c < 128 for c in b) else b)
+    if k in (2, 3): return bytearray(b)
+    return memoryview(b)
+
+
 def jws_consume(ser: str, token, key, **allow):
     from joserfc import jws, jwt, rfc7797
     if ser == "compact":
-        return jws.deserialize_compact(token, key, **allow).payload
+        return jws.deserialize_compact(F(token), key, **allow).payload
     if ser in ("flattened", "general"):
         return jws.deserialize_json(token, key, **allow).payload
     if ser.startswith("7797compact"):
-        return rfc7797.deserialize_compact(token, key, **allow).payload
+        return rfc7797.deserialize_compact(F(token), key, **allow).payload
     if ser.startswith("7797json"):
         return rfc7797.deserialize_json(token, key, **allow).payload
     if ser == "jwt":
-        return R.jdump(jwt.decode(token, key, **allow).claims)
+        return R.jdump(jwt.decode(F(token), key, **allow).claims)
     raise ValueError(ser)
 
 
@@ -236,9 +256,9 @@ def jwe_consume(ser: str, token, key, sender=None, **allow):
     if sender is not None:
         kw["sender_key"] = sender
     if ser == "compact":
-        return jwe.decrypt_compact(token, key, **kw).plaintext
+        return jwe.decrypt_compact(F(token), key, **kw).plaintext
     if ser in ("flattened", "general"):
         return jwe.decrypt_json(token, key, **kw).plaintext
     if ser == "jwt":
-        return R.jdump(jwt.decode(token, key, **allow).claims)
+        return R.jdump(jwt.decode(F(token), key, **allow).claims)
     raise ValueError(ser)
